@@ -23,7 +23,15 @@ var intCmp = map[string]token.Token{
 	mathPath + ".LegacyDec.GT": token.GTR, mathPath + ".LegacyDec.GTE": token.GEQ, mathPath + ".LegacyDec.LT": token.LSS, mathPath + ".LegacyDec.LTE": token.LEQ, mathPath + ".LegacyDec.Equal": token.EQL,
 	sdkPath + ".Coin.IsGTE": token.GEQ, sdkPath + ".Coin.IsLT": token.LSS, sdkPath + ".Coin.IsLTE": token.LEQ, sdkPath + ".Coin.IsEqual": token.EQL, sdkPath + ".Coin.IsGT": token.GTR,
 	"time.Time.After": token.GTR, "time.Time.Before": token.LSS, "time.Time.Equal": token.EQL,
+	// three-way comparisons: the result is the ordering itself (-1, 0, +1)
+	"time.Time.Compare": opThreeWay, mathPath + ".LegacyDec.Cmp": opThreeWay,
 }
+
+// pseudo operators for three-way comparison methods
+const (
+	opThreeWay     = token.REM
+	opThreeWayFlip = token.QUO
+)
 
 // ordering of (A ? B): -1 A<B, 0 A=B, 1 A>B
 func cmpUnder(op token.Token, ord int) AV {
@@ -40,6 +48,10 @@ func cmpUnder(op token.Token, ord int) AV {
 		return Bool(ord == 0)
 	case token.NEQ:
 		return Bool(ord != 0)
+	case opThreeWay:
+		return Int(int64(ord))
+	case opThreeWayFlip:
+		return Int(int64(-ord))
 	}
 	return Unknown
 }
@@ -54,6 +66,10 @@ func flipOp(op token.Token) token.Token {
 		return token.GTR
 	case token.LEQ:
 		return token.GEQ
+	case opThreeWay:
+		return opThreeWayFlip
+	case opThreeWayFlip:
+		return opThreeWay
 	}
 	return op
 }
@@ -265,8 +281,11 @@ func checkSearchDir(w *World, r *Report, tm *Terms, fn *ssa.Function, search ssa
 		if t.Op == "call" {
 			if c, ok := t.V.(*ssa.Call); ok {
 				if f := w.calleeBody(&c.Call); f != nil {
-					if o := sortOrderOfDecSlice(w, tm, f); o != "" {
-						order = o
+					// the producing function or a helper it calls sorts the list
+					for _, g := range sortedFns(w.reachableFrom(f)) {
+						if o := sortOrderOfDecSlice(w, tm, g); o != "" {
+							order = o
+						}
 					}
 				}
 			}
@@ -344,14 +363,19 @@ func sortOrderOfDecSlice(w *World, tm *Terms, fn *ssa.Function) string {
 				if !isNamed(a0.V.Type(), mathPath, "LegacyDec") {
 					continue
 				}
-				iFirst := a0.Args[1].Op == "param" && a0.Args[1].Name == less.Params[0].Name() && a1.Args[1].Op == "param" && a1.Args[1].Name == less.Params[1].Name()
-				if !iFirst {
+				isPar := func(x *Term, k int) bool { return x.Op == "param" && x.V == ssa.Value(less.Params[k]) }
+				iFirst := isPar(a0.Args[1], 0) && isPar(a1.Args[1], 1)
+				jFirst := isPar(a0.Args[1], 1) && isPar(a1.Args[1], 0)
+				if !iFirst && !jFirst {
 					continue
 				}
+				// less(i, j) = s[i] > s[j]  (or, re-spelled, s[j] < s[i]): descending; the mirror images: ascending
+				gt := strings.HasSuffix(t.Name, ".LegacyDec.GT")
+				lt := strings.HasSuffix(t.Name, ".LegacyDec.LT")
 				switch {
-				case strings.HasSuffix(t.Name, ".LegacyDec.GT"):
+				case (gt && iFirst) || (lt && jFirst):
 					return "descending"
-				case strings.HasSuffix(t.Name, ".LegacyDec.LT"):
+				case (lt && iFirst) || (gt && jFirst):
 					return "ascending"
 				}
 			}
